@@ -13,6 +13,7 @@
 #include <memory>
 #include <system_error>
 #include <utility> // std::move
+#include <string>
 #include <vector>
 
 #include <jsoncons/config/compiler_support.hpp>
@@ -478,6 +479,17 @@ private:
         {
             sink_.push_back(jsoncons::ubjson::ubjson_type::int64_type);
             binary::native_to_big(static_cast<int64_t>(val),std::back_inserter(sink_));
+        }
+        else
+        {
+            // UBJSON has no unsigned 64-bit type: larger values are written as a high-precision number
+            const std::string digits = std::to_string(val);
+            sink_.push_back(jsoncons::ubjson::ubjson_type::high_precision_number_type);
+            put_length(digits.length());
+            for (auto c : digits)
+            {
+                sink_.push_back(static_cast<uint8_t>(c));
+            }
         }
         end_value();
         JSONCONS_VISITOR_RETURN;
